@@ -356,6 +356,99 @@ def line_filters(ctx: Ctx, rep: Report) -> None:
     rep.floor(2, "comprehension filters between text and items")
 
 
+def every_line_converted(ctx: Ctx, rep: Report, rid: str = "R12.8") -> None:
+    """Between the text and the item list no body line is passed over: the loop (or comprehension) over the lines hands
+    every line to the reporting converter `_line_to_oace` - it is not left early (`break`), no iteration skips the
+    converter without a log record, and the list is not shortened by slicing unless the removed head is the header that
+    `_parse_type_name` reads."""
+    rep.rule(rid)
+    conv = "_line_to_oace"
+    for q in ("Acl.line.setter", "AceGroup.line.setter"):
+        f = ctx.func(q)
+        cfg = ctx.cfg(f)
+        rep.instance()
+        # names that hold the list of lines
+        lines_vars: Set[str] = set()
+        changed = True
+        while changed:
+            changed = False
+            for n in own_nodes(f.node):
+                if not isinstance(n, (ast.Assign, ast.AnnAssign)) or getattr(n, "value", None) is None:
+                    continue
+                tg = n.targets[0] if isinstance(n, ast.Assign) else n.target
+                v = n.value
+                names = []
+                if isinstance(tg, ast.Name):
+                    names = [tg.id]
+                elif isinstance(tg, ast.Tuple):
+                    names = [e.value.id for e in tg.elts if isinstance(e, ast.Starred) and isinstance(e.value, ast.Name)]
+                is_src = isinstance(v, ast.Call) and (src(v.func).endswith("lines_wo_spaces") or (isinstance(v.func, ast.Attribute) and v.func.attr in ("split", "splitlines")))
+                derived = any(isinstance(x, ast.Name) and x.id in lines_vars for x in ast.walk(v))
+                if (is_src or derived) and not (isinstance(v, ast.Call) and conv in src(v.func)) and not any(isinstance(x, ast.Call) and conv in src(x.func) for x in ast.walk(v)):
+                    for nm in names:
+                        if nm not in lines_vars:
+                            lines_vars.add(nm)
+                            changed = True
+        problems: List[Tuple[ast.AST, str]] = []
+        converted = False
+        # loops over the lines
+        for lp in [n for n in cfg.live if n.kind == "for" and any(isinstance(x, ast.Name) and x.id in lines_vars for x in ast.walk(n.ast.iter))]:
+            var = src(lp.ast.target)
+            for path in loop_body_paths(cfg, lp):
+                end = path[-1][0]
+                if end is cfg.raise_exit:
+                    continue
+                calls_conv = any(nd.ast is not None and nd.kind in ("stmt", "cond") and any(isinstance(x, ast.Call) and conv in src(x.func) and any(mentions(a, var) for a in list(x.args) + [k.value for k in x.keywords]) for x in ast.walk(nd.ast)) for nd, _ in path)
+                if calls_conv:
+                    converted = True
+                if end is not lp:
+                    brk = next((nd.ast for nd, _ in path if nd.kind == "stmt" and isinstance(nd.ast, (ast.Break, ast.Return))), lp.ast)
+                    problems.append((brk, f"the loop over the lines is left early ({snippet(brk, 30)}): every line after this one is never looked at and nothing reports it"))
+                elif not calls_conv:
+                    env: Dict[str, ast.AST] = {}
+                    if _path_logs(path, env, {var}, LOG_ANY) is None:
+                        atoms = "; ".join(f"{snippet(nd.ast, 30)}={lab}" for nd, lab in path if nd.kind == "cond")
+                        problems.append((lp.ast, f"an iteration [{atoms}] neither converts the line through {conv} nor logs it"))
+        def _head_read(base: str) -> bool:
+            return any(isinstance(x, ast.Call) and "_parse_type_name" in src(x.func) and any(src(a).startswith(f"{base}[0]") for a in x.args) for x in own_nodes(f.node))
+
+        def _tail_of_lines(e: ast.AST) -> Optional[str]:
+            """`X[1:]` with X a list of the lines -> X."""
+            if isinstance(e, ast.Subscript) and isinstance(e.slice, ast.Slice) and isinstance(e.value, ast.Name) and e.value.id in lines_vars:
+                sl = e.slice
+                if sl.upper is None and sl.step is None and isinstance(sl.lower, ast.Constant) and sl.lower.value == 1:
+                    return e.value.id
+            return None
+
+        # comprehensions over the lines (or over the lines after the header that _parse_type_name reads)
+        for n in own_nodes(f.node):
+            if isinstance(n, (ast.ListComp, ast.GeneratorExp)):
+                for g in n.generators:
+                    over_all = isinstance(g.iter, ast.Name) and g.iter.id in lines_vars
+                    tail = _tail_of_lines(g.iter)
+                    if (over_all or (tail and _head_read(tail))) and any(isinstance(x, ast.Call) and conv in src(x.func) for x in ast.walk(n.elt)):
+                        converted = True
+                    elif isinstance(g.iter, ast.Subscript) and isinstance(g.iter.value, ast.Name) and g.iter.value.id in lines_vars and any(isinstance(x, ast.Call) and conv in src(x.func) for x in ast.walk(n.elt)):
+                        problems.append((n, f"only the part {snippet(g.iter)} of the lines is converted: the rest vanishes without a warning"))
+                        converted = True
+        # shortening by slicing
+        for n in own_nodes(f.node):
+            if isinstance(n, (ast.Assign, ast.AnnAssign)) and isinstance(getattr(n, "value", None), ast.Subscript) and isinstance(n.value.slice, ast.Slice) and isinstance(n.value.value, ast.Name) and n.value.value.id in lines_vars:
+                base = n.value.value.id
+                head_read = _head_read(base)
+                sl = n.value.slice
+                only_head = sl.upper is None and sl.step is None and isinstance(sl.lower, ast.Constant) and sl.lower.value == 1
+                if not (only_head and head_read):
+                    problems.append((n, f"`{snippet(n)}` removes lines from the list before they are converted: they vanish without a warning"))
+        if not converted:
+            problems.append((f.node, f"no loop or comprehension hands the body lines to {conv}"))
+        if problems:
+            for node, why in problems[:3]:
+                rep.violation(q, snippet(node, 60) if not isinstance(node, ast.FunctionDef) else "line -> items", why, where(f, node), inp="an ACL text with a stray 'ip access-list ...' line in its body")
+        else:
+            rep.ok(f"{q}: every line is converted", f"the lines ({', '.join(sorted(lines_vars))}) all reach {conv}; no early exit, no slicing", where=where(f))
+
+
 def r12_5(ctx: Ctx, rep: Report) -> None:  # noqa: C901
     rep.rule("R12.5")
     for q in ("AddrGroup.line.setter", "AddrGroup.items.setter"):
@@ -482,5 +575,13 @@ def run(ctx: Ctx, rep: Report, tier: str) -> None:
     r12_3(ctx, rep)
     r12_4(ctx, rep)
     line_filters(ctx, rep)
+    every_line_converted(ctx, rep)
+    # R12.9 premise: the whitespace normaliser the builders apply first maps every spelling of a line to its canonical
+    # form (C06 R06.5): a line it leaves un-normalised matches no pattern and is dropped
+    from .c06 import normaliser_fixed_point
+
+    sub = Report("C12")
+    normaliser_fixed_point(ctx, sub, rid="R06.5")
+    rep.absorb(sub, "R12.9")
     r12_5(ctx, rep)
     r12_6(ctx, rep)
